@@ -169,6 +169,7 @@ def iv3_cache_keys(m, run, classes, rule='IV3.cache-key-init'):
     n0 = len(run.obs)
     try:
         _sd.ck3(m, run, classes, lambda c: cache_keys_read(m, c))
+        _sd.own2(m, run, classes)
     except AnalysisError as ex:
         run.error(str(ex))
     ok = len(run.obs) > n0 and all(o.ok for o in run.obs[n0:])
